@@ -307,6 +307,13 @@ def impl_case(case):
             slack = 0
         return ra - slack <= fv <= rb + slack
 
+    if name == "^" and len(ops) == 2 and ivpos == [0] and _frac(ops[1]) is not None and _frac(ops[1]).denominator != 1 \
+            and _frac(ops[0].a) is not None and _frac(ops[0].a) < 0:
+        # a fractional power of an interval that reaches negative numbers is undefined there: it must be rejected,
+        # however close to a whole number the exponent is
+        if top_ok:
+            viol.append(dict(kind="accepted-where-undefined", op="^", point=C.enc_value(ops[0].a), point_error="fractional power of a negative",
+                             result=C.enc_value(top_val)))
     enclosure_op = (len(ops) == 2 and name in ENCL2 and len(ivpos) == 1) or (len(ops) == 1 and name in ENCL1 and ivpos)
     if enclosure_op:
         i = ivpos[0]
